@@ -42,7 +42,7 @@ Definition stage_lines (k : string) (t : string) (pro dead : list string) : list
    fl "dry" "   0.7"; fl "lukrit" "   0.08"; fl "sla" "   0.002"; fl "wgmax" "   0.02";
    colsline "pro" pro; colsline "dead" dead; fl "kc" "   0.9"]%string.
 Definition sample_lines : list lstr :=
-  [lstr_of "Parameter crop model"; lstr_of "crop: sample"; lstr_of "no";
+  [lstr_of "crop model values"; lstr_of "crop: sample"; lstr_of "no";
    fl "amax" "   40"; fl "typ" "   1"; fl "mintmp" "   4"; fl "wumax" "   12"; fl "veloc" "   0.7"; fl "ngefkt" "   1";
    fl "ago" "   2"; fl "yield" "2.85"; fl "nbiom" "   6.0"; fl "nroot" "   2.0"; fl "nrkom" "   2";
    lstr_of "compartments   root leaf"; colsline "weights" ["00053"; "00053"]; colsline "maint" ["0.010"; "0.030"];
